@@ -15,12 +15,13 @@ UR == U("@r:s2", S2)    \* user on another server
 UZ == U("@z:s1", S1)    \* bystander, never selected
 
 NoTpi == [present |-> FALSE, signed |-> FALSE, hasmxid |-> FALSE, hastoken |-> FALSE, mxid |-> NoUser,
-          token |-> "", sigok |-> FALSE]
+          token |-> "", sigkey |-> ""]
 EmptyPL == [users_default |-> AbsentV, events_default |-> AbsentV, state_default |-> AbsentV, ban |-> AbsentV,
             redact |-> AbsentV, kick |-> AbsentV, invite |-> AbsentV,
             users |-> <<>>, events |-> <<>>, notifications |-> <<>>, userkeysvalid |-> TRUE]
 C0 == [membership |-> "absent", jauth |-> NoUser, tpi |-> NoTpi, hascreator |-> TRUE, creator |-> UC,
-       federate |-> TRUE, join_rule |-> "absent", pl |-> EmptyPL, redactsserver |-> ""]
+       federate |-> TRUE, join_rule |-> "absent", pl |-> EmptyPL, redactsserver |-> "",
+       tpikeys |-> [top |-> "k8", list |-> {"k7"}]]
 
 Ev(id, type, sender, haskey, key, c) ==
   [id |-> id, type |-> type, sender |-> sender, haskey |-> haskey, key |-> key, keyisuser |-> FALSE,
@@ -95,7 +96,7 @@ NextEarly ==
 \* ---- join
 JauthCfgs == {"none", "ok", "oknopl", "lowlevel", "notjoined", "nomember"}
 NextJoin ==
-  \E who \in {UC, UA}, createonly \in BOOLEAN, self \in BOOLEAN, cur \in Memberships \cup {"org.other"},
+  \E who \in {UC, UA}, pv \in {"create", "other", "none", "both"}, self \in BOOLEAN, cur \in Memberships \cup {"org.other"},
      jr \in JoinRules, ja \in JauthCfgs :
      LET sender == IF self THEN who ELSE UB
          jauthUser == IF ja = "none" THEN NoUser ELSE UB
@@ -107,9 +108,11 @@ NextJoin ==
                 \cup (IF ~self THEN {MemberEv(UB, "join")}
                       ELSE IF jm = "absent" THEN {} ELSE {MemberEv(UB, jm)})
      IN /\ (~self => ja = "none")
+        /\ (pv \in {"none", "both"} => ja = "none")     \* "the only previous event is the create event": no, one other, none, two
         /\ evs' = Base \cup mem \cup pl \cup JR(jr)
         /\ e' = [MemberBy(sender, who, "join") EXCEPT !.id = "$e", !.c.jauth = jauthUser,
-                                                     !.prev = IF createonly THEN {"$create"} ELSE {"$p"}]
+                                                     !.prev = CASE pv = "create" -> {"$create"} [] pv = "other" -> {"$p"}
+                                                                [] pv = "none" -> {} [] OTHER -> {"$create", "$p"}]
 
 \* ---- invite (ordinary)
 LevelCfgs == {<<"nopl-creator">>, <<"nopl-other">>} \cup {"users", "default"} \X Levels \X {AbsentV, IntV(50)}
@@ -125,13 +128,14 @@ NextInvite ==
 \* ---- invite created from a third-party invite
 NextInvite3p ==
   \E sm \in {"join", "leave"}, tm \in {"absent", "ban", "join"}, sg \in BOOLEAN, hm \in BOOLEAN, ht \in BOOLEAN,
-     mm \in BOOLEAN, te \in {"same", "othersender", "absent", "othertoken"}, ok \in BOOLEAN :
+     mm \in BOOLEAN, te \in {"same", "othersender", "absent", "othertoken"}, sk \in {"k7", "k8", "k9"}, kl \in SUBSET {"k7", "k8"} :
      LET tpi == [present |-> TRUE, signed |-> sg, hasmxid |-> sg /\ hm, hastoken |-> sg /\ ht,
                  mxid |-> IF sg /\ hm THEN (IF mm THEN UB ELSE UZ) ELSE NoUser,
-                 token |-> IF sg /\ ht THEN "tok" ELSE "", sigok |-> sg /\ ok]
-         tev == CASE te = "same" -> {TpiEv("tok", UA)} [] te = "othersender" -> {TpiEv("tok", UC)}
+                 token |-> IF sg /\ ht THEN "tok" ELSE "", sigkey |-> IF sg THEN sk ELSE ""]
+         tev == CASE te = "same" -> {[TpiEv("tok", UA) EXCEPT !.c.tpikeys.list = kl]} [] te = "othersender" -> {TpiEv("tok", UC)}
                   [] te = "othertoken" -> {TpiEv("tok2", UA)} [] OTHER -> {}
-     IN /\ (~sg => (hm /\ ht /\ mm /\ ~ok))      \* no signed object: the sub-fields do not exist
+     IN /\ (~sg => (hm /\ ht /\ mm /\ sk = "k9"))      \* no signed object: the sub-fields do not exist
+        /\ (te # "same" => kl = {"k7"})               \* the key list matters only for the event that is looked up
         /\ evs' = Base \cup Members(One(UA, sm)) \cup Members(One(UB, tm)) \cup tev \cup JR("invite")
         /\ e' = [MemberBy(UA, UB, "invite") EXCEPT !.id = "$e", !.c.tpi = tpi]
 
@@ -168,9 +172,9 @@ NextKnock ==
      /\ e' = [MemberBy(UA, IF self THEN UA ELSE UB, "knock") EXCEPT !.id = "$e"]
 
 \* ---- a third_party_invite object on member events that are NOT invites: neither the rules nor the selection look at it
-Tpis3 == { [present |-> TRUE, signed |-> FALSE, hasmxid |-> FALSE, hastoken |-> FALSE, mxid |-> NoUser, token |-> "", sigok |-> FALSE],
-           [present |-> TRUE, signed |-> TRUE, hasmxid |-> TRUE, hastoken |-> TRUE, mxid |-> UB, token |-> "tok", sigok |-> TRUE],
-           [present |-> TRUE, signed |-> TRUE, hasmxid |-> FALSE, hastoken |-> FALSE, mxid |-> NoUser, token |-> "", sigok |-> FALSE] }
+Tpis3 == { [present |-> TRUE, signed |-> FALSE, hasmxid |-> FALSE, hastoken |-> FALSE, mxid |-> NoUser, token |-> "", sigkey |-> ""],
+           [present |-> TRUE, signed |-> TRUE, hasmxid |-> TRUE, hastoken |-> TRUE, mxid |-> UB, token |-> "tok", sigkey |-> "k7"],
+           [present |-> TRUE, signed |-> TRUE, hasmxid |-> FALSE, hastoken |-> FALSE, mxid |-> NoUser, token |-> "", sigkey |-> ""] }
 NextOther3p ==
   \E t \in Tpis3, m \in {"join", "leave", "ban", "knock"}, jr \in {"public", "invite", "knock"}, sm \in {"join", "leave", "invite"} :
      LET target == IF m = "ban" THEN UB ELSE UA IN
@@ -310,6 +314,7 @@ CContent(x) ==
     [] x.type = "m.room.join_rules" -> [join_rule |-> x.c.join_rule]
     [] x.type = "m.room.power_levels" -> [pl |-> CPL(x.c.pl)]
     [] x.type = "m.room.redaction" -> [redactsserver |-> x.c.redactsserver]
+    [] x.type = "m.room.third_party_invite" -> [tpikeys |-> [top |-> x.c.tpikeys.top, list |-> SetToSeq(x.c.tpikeys.list)]]
     [] OTHER -> [none |-> TRUE]
 CEv(x) == [id |-> x.id, type |-> x.type, sender |-> x.sender.name, haskey |-> x.haskey, key |-> x.key, prev |-> x.prev,
            auth |-> x.auth, roomserver |-> x.roomserver, idserver |-> x.idserver, c |-> CContent(x)]
